@@ -418,6 +418,8 @@ class ParseTheory(CompilerTheory):
                                                                               sel(is_('TTParen'), '(ttp %s)' % b, '(ttph %s)' % b)))))]
                 ex.oblige(st, 'safety.term1_present', is_('TTBin'), 'safety')
                 return [(st, SV('TT', '(ttb2 %s)' % b))]
+        if base.sort == 'TT' and meth == 'getText' and not args:
+            return [(st, SV('Str', '(ttsrc %s)' % b))]
         if base.sort == 'OptTok' and meth == 'getText' and not args:
             ex.oblige(st, 'safety.token_present', NOT(base.meta['none']), 'safety')
             return [(st, SV('Str', base.e))]
